@@ -619,7 +619,10 @@ fn record_entry_to_source_with_scope(
 fn serializable_value_to_source(value: &SerializableValue) -> String {
     match value {
         SerializableValue::Number(n) => {
-            if n.fract() == 0.0 && n.abs() < 1e15 {
+            if n.is_nan() {
+                // There is no NaN literal; this expression evaluates to it
+                "(0 / 0)".to_string()
+            } else if n.fract() == 0.0 && n.abs() < 1e15 {
                 format!("{:.0}", n)
             } else {
                 n.to_string()
